@@ -8,6 +8,7 @@ import GenjaxModel.Model.SeedIO
 import GenjaxModel.Model.LoweringIO
 import GenjaxModel.Model.McmcIO
 import GenjaxModel.Model.SmcIO
+import GenjaxModel.Model.AdevIO
 /-! Line-protocol driver: one S-expression per input line, one per output line. -/
 open Genjax
 
@@ -43,6 +44,9 @@ def dispatch (e : SExp) : SExp :=
   | some r => r
   | none =>
   match stepSmc e with
+  | some r => r
+  | none =>
+  match stepAdev e with
   | some r => r
   | none => .list [.atom "bad-op"]
 
